@@ -681,13 +681,46 @@ def murmur_pair(chk):
             bad.append((L, sorted(got ^ want)))
     chk.judge(not bad, 'C07.murmur', (MURMUR, '_murmur3', f.lineno), 'Python tail loops touch exactly the C cases (byte, shift) for every tail length 0..15', 'tail handling differs for tail lengths %s' % bad[:3])
     bt = pm.func('body_and_tail')
-    signed_py = "struct.unpack_from('b' * tail, data, -tail)" in src(bt) and not unsigned
+    # body_and_tail is interpreted for every length 0..48: what it returns is (blocks, tail bytes, length) with the struct formats and offset below,
+    # however the function spells the arithmetic
+    from ..absint import Interp as _Interp, Sym as _Sym
+
+    def _bt_effect(interp, node, c, args, kwargs, env):
+        if c == ('len',) and len(args) == 1 and isinstance(args[0], _Sym) and args[0].text == 'data':
+            return interp._L
+        if c == ('divmod',) and len(args) == 2 and all(isinstance(a, int) for a in args):
+            return divmod(*args)
+        if c == ('tuple',) and not args:
+            return ()
+        if c == ('struct', 'unpack_from') and len(args) in (2, 3) and isinstance(args[0], str) and isinstance(args[1], _Sym) and args[1].text == 'data':
+            return ('unpack', args[0], args[2] if len(args) == 3 else 0)
+        return NotImplemented
+    bt_bad, signed_py = [], True
+    for L in range(0, 49):
+        it = _Interp(pm, effect=_bt_effect)
+        it._L = L
+        try:
+            outs_ = it.run_all(bt, {'data': _Sym('data')})
+        except Exception as e_:
+            raise AnalysisError('body_and_tail could not be interpreted for a %d byte key: %s' % (L, e_))
+        n_, t_ = divmod(L, 16)
+        for o_ in outs_:
+            v_ = o_.value
+            want_body = ('unpack', '<' + 'qq' * n_, 0) if n_ else ()
+            ok_body = isinstance(v_, tuple) and len(v_) == 3 and (v_[0] == want_body or (not n_ and v_[0] == ('unpack', '<', 0)))
+            ok_tail = isinstance(v_, tuple) and len(v_) == 3 and isinstance(v_[1], tuple) and len(v_[1]) == 3 and v_[1][0] == 'unpack' and v_[1][2] in (-t_, L - t_) and len(v_[1][1]) == t_
+            if ok_tail and set(v_[1][1]) - set('b'):
+                signed_py = False
+            if o_.kind != 'ok' or not ok_body or not ok_tail or v_[2] != L:
+                bt_bad.append((L, v_))
+    signed_py = signed_py and not unsigned
     signed_c = cf['tail_type'] == ('int8_t', 'int8_t') and cf['data_type'] == ('int8_t', 'int8_t')
     chk.judge(signed_py and signed_c, 'C07.murmur', loc, 'tail bytes are signed on both sides (int8_t* in C, struct format b and no masking in Python)',
               'tail byte signedness differs: C tail pointer %s / data pointer %s, Python %s: keys with a byte >= 0x80 in the last len %% 16 bytes hash differently'
               % (cf['tail_type'], cf['data_type'], 'signed' if signed_py else 'masks the byte (%s)' % unsigned))
-    chk.judge("'<' + 'qq' * nblocks" in src(bt) and cf['block_type'] and 'nblocks = l // 16' in src(bt) and 'tail = l % 16' in src(bt) and cf['nblocks'], 'C07.murmur', (MURMUR, 'body_and_tail', bt.lineno),
-              'blocks are little-endian signed 64-bit pairs, 16 bytes each, on both sides', 'block splitting differs')
+    chk.judge(not bt_bad and cf['block_type'] and cf['nblocks'], 'C07.murmur', (MURMUR, 'body_and_tail', bt.lineno),
+              'blocks are little-endian signed 64-bit pairs, 16 bytes each, the tail is the last len %% 16 bytes, on both sides (body_and_tail interpreted for lengths 0..48)',
+              'block splitting differs: %s' % (bt_bad[:2],))
     fin = [src(st) for st in f.body if isinstance(st, (ast.AugAssign, ast.Assign, ast.Return))]
     tailseq = fin[fin.index('h1 ^= total_len'):] if 'h1 ^= total_len' in fin else []
     want = ['h1 ^= total_len', 'h2 ^= total_len', 'h1 += h2', 'h2 += h1', 'h1 = fmix(h1)', 'h2 = fmix(h2)', 'h1 += h2', 'return truncate_int64(h1)']
